@@ -468,7 +468,7 @@ func errEdgeOf(call *ssa.Call) *ssa.BasicBlock {
 // is the greater ("a longer list above its own prefix", in the sign convention cmp(longer, shorter) that
 // C06.numorder reads off the remainder comparison and C14.swap maps to the public result).
 func ruleC06Scan(e *Env, rule string) {
-	fn := e.Fn(rule, "sem", "comparePreRelease")
+	fn := scanFunc(e, rule)
 	if fn == nil || len(fn.Params) != 2 {
 		return
 	}
@@ -549,6 +549,10 @@ func ruleC06Scan(e *Env, rule string) {
 					return t.X, t.Index, true
 				case *ssa.Lookup:
 					return t.X, t.Index, !t.CommaOk
+				case *ssa.UnOp: // an element of a byte slice
+					if ia, ok := t.X.(*ssa.IndexAddr); ok && t.Op == token.MUL {
+						return ia.X, ia.Index, true
+					}
 				}
 				return nil, nil, false
 			}
@@ -687,4 +691,27 @@ func ruleC06Scan(e *Env, rule string) {
 	default:
 		e.S.Ok(rule, site, "results", fmt.Sprintf("%d return(s) at the first difference (the remainder comparison of both operands cut at one index), %d at the end of the scan (0 under equal lengths, 1 for a proper prefix)", nDiff, nEnd), e.Pos(fn))
 	}
+}
+
+// scanFunc: the function that scans two pre-release texts: sem.comparePreRelease under its recorded name, or — renamed,
+// moved or no longer generic — the one function of the module that DefaultComparePreRelease calls with both operands.
+func scanFunc(e *Env, rule string) *ssa.Function {
+	if f := e.F("sem", "comparePreRelease"); f != nil {
+		return f
+	}
+	dcp := e.F("sem", "DefaultComparePreRelease")
+	if dcp != nil {
+		var found *ssa.Function
+		for _, call := range e.C.Calls(dcp, flow.InRepo) {
+			g := flow.Origin(e.C.StaticCallee(&call.Call))
+			if len(call.Call.Args) == 2 && len(g.Params) == 2 && (found == nil || found == g) {
+				found = g
+			}
+		}
+		if found != nil {
+			return found
+		}
+	}
+	e.S.Unk(rule, "sem.comparePreRelease", "anchor", "the scanning function is not found under its name nor as the one callee of DefaultComparePreRelease taking both operands", "")
+	return nil
 }
